@@ -34,8 +34,20 @@ def annotate(recs):
         for c in d["clauses"]:
             db += vlib.tok_clause(c)
         lines.append(f"analyses {i} " + vlib.toks(db, tok_levents(d["events"])))
+        # the conflict report: the clause analyze_unsolvable started from and the clauses it collected
+        conf = [e["unsolv"] for e in d["events"] if isinstance(e, dict) and "unsolv" in e]
+        if conf and ss.outcome_kind(r["obs"]["outcome"]) == "unsat":
+            lines.append(f"unsolv u{i} " + vlib.toks(db, tok_levents(d["events"]), [conf[-1]], [len(d["core"])] + list(d["core"])))
     out = vlib.oracle(lines)
     for i, v in out.items():
+        if i.startswith("u"):
+            r = recs[int(i[1:])]
+            if v.startswith("error"):
+                r["unsolv"] = {"error": v}
+            else:
+                eq, okc = v.split()
+                r["unsolv"] = {"eq": eq == "1", "ok": okc == "1"}
+            continue
         r = recs[int(i)]
         if v.startswith("error"):
             r["an"] = {"error": v}
@@ -50,6 +62,15 @@ def ok(r):
     return a is None or ("error" not in a and a["ok"])
 
 
+def ok_unsolv(r):
+    """the implementation's Conflict equals the analyze_unsolvable model's and the side conditions of
+    UnsolvableProofs.core_unsat hold (so the reported clauses refute 'root installed')"""
+    u = r.get("unsolv")
+    return u is None or ("error" not in u and u["eq"] and u["ok"])
+
+
 def stats(recs):
     a = [r["an"] for r in recs if "an" in r and "n" in r["an"]]
-    return {"runs_replayed_through_analyze_model": len(a), "conflict_analyses_compared": sum(x["n"] for x in a)}
+    u = [r["unsolv"] for r in recs if "unsolv" in r and "eq" in r["unsolv"]]
+    return {"runs_replayed_through_analyze_model": len(a), "conflict_analyses_compared": sum(x["n"] for x in a),
+            "conflict_reports_compared_with_analyze_unsolvable_model": len(u)}
